@@ -147,28 +147,30 @@ class Queue(mp_Queue):
                         nwait()
                 finally:
                     nrelease()
-                try:
-                    while True:
+                while True:
+                    # Only an empty buffer ends the loop: an IndexError raised
+                    # while pickling or sending obj is an error of that obj.
+                    try:
                         obj = bpopleft()
-                        if obj is sentinel:
-                            util.debug("feeder thread got sentinel -- exiting")
-                            close()
-                            return
+                    except IndexError:
+                        break
+                    if obj is sentinel:
+                        util.debug("feeder thread got sentinel -- exiting")
+                        close()
+                        return
 
-                        # serialize the data before acquiring the lock
-                        obj_ = dumps(obj, reducers=reducers)
-                        if wacquire is None:
+                    # serialize the data before acquiring the lock
+                    obj_ = dumps(obj, reducers=reducers)
+                    if wacquire is None:
+                        send_bytes(obj_)
+                    else:
+                        wacquire()
+                        try:
                             send_bytes(obj_)
-                        else:
-                            wacquire()
-                            try:
-                                send_bytes(obj_)
-                            finally:
-                                wrelease()
-                        # Remove references early to avoid leaking memory
-                        del obj, obj_
-                except IndexError:
-                    pass
+                        finally:
+                            wrelease()
+                    # Remove references early to avoid leaking memory
+                    del obj, obj_
             except BaseException as e:
                 if ignore_epipe and getattr(e, "errno", 0) == errno.EPIPE:
                     return
